@@ -14,6 +14,7 @@ import (
 	_ "verif/harness/c04"
 	_ "verif/harness/c05"
 	_ "verif/harness/c06"
+	_ "verif/harness/c08"
 	_ "verif/harness/c09"
 	_ "verif/harness/c10"
 	_ "verif/harness/c11"
